@@ -387,7 +387,13 @@ func (g *lgen) gen(h uint64) *ltx {
 			if r.Intn(12) == 0 {
 				gas = g.coin()
 			}
-			if r.Intn(10) != 0 {
+			// a redemption must carry gas price exactly 1: both sides of it, otherwise valid
+			switch r.Intn(10) {
+			case 0:
+				gp = 0
+			case 1:
+				gp = uint32(2 + r.Intn(2))
+			default:
 				gp = 1
 			}
 			v := new(big.Int).Div(g.part(issuer.Addr, c), Z(int64(1+r.Intn(5))))
@@ -701,6 +707,7 @@ func runLedger(pid string, seed uint64, n int, out, stats string) {
 	checkAgree, txs, okTxs, failedCharged, redeliveries := 0, 0, 0, 0, 0
 	if pid == "C22" {
 		c22WrapScenario(&mon)
+		c22PoolTokenScenario(&mon)
 	}
 	for i := 0; i < n; i++ {
 		s := seed*1000003 + uint64(i)
@@ -1139,6 +1146,37 @@ func c22WrapScenario(mon *[]MonitorFailure) {
 	if len(act) != 1 {
 		*mon = append(*mon, MonitorFailure{What: fmt.Sprintf("C22: RecreateToken of a ticker whose archived versions reach 65535 was accepted (code 0) and the archived coin got version 65535+1 = 0 (uint16): ticker %s is now active for coins %v", sym.String(), act),
 			Key: "c22-version-wrap", Replay: "vharness c22 -n 0 (scenario version-wrap: genesis coins 1 (version 65535) and 2 (version 0) with one ticker, RecreateToken by the owner)"})
+	}
+}
+
+// c22PoolTokenScenario: pool tokens (LP-n: mintable, burnable, no ticker owner) are minted only by adding liquidity:
+// a MintToken on them is refused whoever sends it.
+func c22PoolTokenScenario(mon *[]MonitorFailure) {
+	nd := newNode(&GenesisSpec{NAccounts: 4, Balance: pip(100000000), NVals: 2, ValOwnersFrom: 2})
+	defer nd.Cleanup()
+	a, b := nd.Accts[0], nd.Accts[1]
+	nd.Block([][]byte{nd.MkTx(a, transaction.TypeCreateToken, transaction.CreateTokenData{Name: "t", Symbol: types.StrToCoinSymbol("POOLSIDE"), InitialAmount: pip(1000000), MaxSupply: pip(2000000), Mintable: true, Burnable: true}, 0, 0, 1, nil)}, nil)
+	tok := types.CoinID(nd.App.CurrentState().App().GetCoinsCount())
+	r := nd.Block([][]byte{nd.MkTx(a, transaction.TypeCreateSwapPool, transaction.CreateSwapPoolData{Coin0: 0, Coin1: tok, Volume0: pip(1000), Volume1: pip(1000)}, 0, 0, 1, nil)}, nil)
+	if r.Panic != "" || len(r.Txs) != 1 || r.Txs[0].Code != 0 {
+		*mon = append(*mon, MonitorFailure{What: "C22: pool-token scenario could not be set up", Key: "c22-scenario-broken"})
+		return
+	}
+	lp := types.CoinID(nd.App.CurrentState().App().GetCoinsCount())
+	vol := func() string {
+		if c := nd.App.CurrentState().Coins().GetCoin(lp); c != nil {
+			return c.Volume().String()
+		}
+		return "?"
+	}
+	before := vol()
+	r = nd.Block([][]byte{nd.MkTx(b, transaction.TypeMintToken, transaction.MintTokenData{Coin: lp, Value: pip(1)}, 0, 0, 1, nil),
+		nd.MkTx(a, transaction.TypeMintToken, transaction.MintTokenData{Coin: lp, Value: pip(1)}, 0, 0, 1, nil)}, nil)
+	for i, tr := range r.Txs {
+		if tr.Code == 0 {
+			*mon = append(*mon, MonitorFailure{What: fmt.Sprintf("C22: MintToken of the pool token %d (no ticker owner) by account %d was accepted: volume %s -> %s without liquidity being added", lp, i, before, vol()),
+				Key: "c22-pool-token-minted", Replay: "vharness c22 -n 0 (scenario pool-token: CreateToken, CreateSwapPool, MintToken of LP-1 by a stranger and by the pool creator)"})
+		}
 	}
 }
 
